@@ -501,13 +501,13 @@ func unclaimedRewards(w *World, ctx sdk.Context, s *Snap) bool {
 	return false
 }
 
-func (*OracleC12) Name() string           { return "C12" }
+func (*OracleC12) Name() string { return "C12" }
 func (o *OracleC12) Before(x *Exec, op *Op) {
 	if (op.K == KSlash || op.K == KSlashHook) && !o.tainted && unclaimedRewards(x.W, x.Ctx, x.Pre()) {
 		o.pendingTaint = true
 	}
 }
-func (*OracleC12) End(x *Exec)            {}
+func (*OracleC12) End(x *Exec) {}
 
 var shortRe = regexp.MustCompile(`spendable balance (\d+)([a-zA-Z/0-9]+) is smaller than (\d+)`)
 
